@@ -124,11 +124,11 @@ inductive Base (K : Type) where
   | cos (cb sb cc sc : K)
   | sin (cb sb cc sc : K)
 
-/-- `invz ** delay` resp. `invz ** delay / (1 - invz)` for a delay ≥ 0; an impulse before n = 0
-    contributes nothing to the unilateral sum and a step starting before n = 0 is a step at 0 -/
+/-- `invz ** delay` resp. `invz ** delay / (1 - invz)` — the code applies this to any integer delay,
+    also to advances (finding F17, kept: the upstream test-suite pins it) -/
 def ztBase : Base K → ZR K
-  | .imp d => if d ≥ 0 then ⟨0, pshift d.toNat [1], [1]⟩ else ⟨0, [], [1]⟩
-  | .step d => if d ≥ 0 then ⟨0, pshift d.toNat [1], [1, -1]⟩ else ⟨0, [1], [1, -1]⟩
+  | .imp d => if d ≥ 0 then ⟨0, pshift d.toNat [1], [1]⟩ else ⟨(-d).toNat, [1], [1]⟩
+  | .step d => if d ≥ 0 then ⟨0, pshift d.toNat [1], [1, -1]⟩ else ⟨(-d).toNat, [1], [1, -1]⟩
   | .one => ⟨0, [1], [1, -1]⟩
   | .cos cb sb cc sc => ⟨0, [cc, -(cb * cc + sb * sc)], [1, -(cb + cb), 1]⟩
   | .sin cb sb cc sc => ⟨0, [sc, sb * cc - cb * sc], [1, -(cb + cb), 1]⟩
